@@ -1513,7 +1513,7 @@ fn build_hash_table_sequential(
     for (batch_idx, batch) in batches.iter().enumerate() {
         let key_arrays: Result<Vec<ArrayRef>> =
             key_exprs.iter().map(|e| evaluate_expr(batch, e)).collect();
-        let key_arrays = key_arrays?;
+        let key_arrays = widen_join_keys(key_arrays?)?;
 
         for row_idx in 0..batch.num_rows() {
             let key = extract_join_key(&key_arrays, row_idx);
@@ -1547,7 +1547,7 @@ fn build_hash_table_parallel(
 
             let key_arrays: Result<Vec<ArrayRef>> =
                 key_exprs.iter().map(|e| evaluate_expr(batch, e)).collect();
-            let key_arrays = key_arrays?;
+            let key_arrays = widen_join_keys(key_arrays?)?;
 
             for row_idx in 0..batch.num_rows() {
                 let key = extract_join_key(&key_arrays, row_idx);
@@ -1643,6 +1643,30 @@ fn build_i64_hash_table(
     Some(table)
 }
 
+/// Cast join-key columns to the types `extract_join_key` can represent
+/// (Int64 / Float64 / Utf8) and reject the rest. `extract_join_key` answers
+/// `JoinValue::Null` for any other type, and a NULL key never matches: a join
+/// on Int16, Float32, Timestamp, LargeUtf8, ... silently returned no rows.
+pub(crate) fn widen_join_keys(arrays: Vec<ArrayRef>) -> Result<Vec<ArrayRef>> {
+    use arrow::datatypes::DataType::*;
+    let widen = |arr: ArrayRef| {
+        let to = match arr.data_type() {
+            Null | Int64 | Int32 | UInt64 | Float64 | Utf8 => return Ok(arr),
+            Boolean => Int64,
+            t if t.is_integer() || t.is_temporal() => Int64,
+            Float16 | Float32 => Float64,
+            LargeUtf8 | Utf8View => Utf8,
+            Dictionary(_, v) if matches!(**v, Utf8 | LargeUtf8) => Utf8,
+            t => {
+                let msg = format!("hash join on a key of type {t}");
+                return Err(crate::error::QueryError::NotImplemented(msg));
+            }
+        };
+        Ok(compute::cast(&arr, &to)?)
+    };
+    arrays.into_iter().map(widen).collect()
+}
+
 fn extract_join_key(arrays: &[ArrayRef], row: usize) -> JoinKey {
     let values: Vec<JoinValue> = arrays
         .iter()
@@ -1687,7 +1711,8 @@ fn extract_join_key(arrays: &[ArrayRef], row: usize) -> JoinKey {
                 return JoinValue::Null;
             }
 
-            JoinValue::Null
+            // `widen_join_keys` admits only the types handled above.
+            unreachable!("join key of type {} was not widened", arr.data_type())
         })
         .collect();
 
@@ -2250,7 +2275,7 @@ fn probe_semi_anti_parallel(
                         .iter()
                         .map(|e| evaluate_expr(probe_batch, e))
                         .collect();
-                    Some(arrays?)
+                    Some(widen_join_keys(arrays?)?)
                 } else {
                     None
                 };
@@ -3270,7 +3295,7 @@ fn probe_hash_table(
             .iter()
             .map(|e| evaluate_expr(probe_batch, e))
             .collect();
-        let probe_key_arrays = probe_key_arrays?;
+        let probe_key_arrays = widen_join_keys(probe_key_arrays?)?;
 
         // First pass: collect all candidate pairs from hash table lookup
         let mut candidate_build_indices: Vec<(usize, usize)> = Vec::new();
